@@ -253,10 +253,28 @@ def run_case(ck, desc):
     cls = fp.FlowPropertiesSimple if branch == "simple" else FlowProperties
     need = {"simple": {"pressure", "compressibility", "viscosity"}, "alpha": {"pressure", "pseudopressure", "alpha"}, "long": {"pressure", "pseudopressure", "compressibility", "viscosity", "z-factor"}}[branch]
     must_raise = (not need <= have) or where == "outside"
+    # the initial pressure as the caller happens to hold it: a float, a 0-d array (the result of a look-up), a
+    # one-element view of a pressure grid. The caller goes on USING that array afterwards (steps it, converts its
+    # unit in place); what the wrapper reports stays what it was built for
+    how_pi = int(desc["u"][3] * 8) % 4
+    grid_pi = np.array([p_i - 1.0, p_i, p_i + 1.0])
+    p_i_arg = [p_i, np.array(p_i), grid_pi[1:2].reshape(()) if False else grid_pi[1], np.float64(p_i)][how_pi]
+    if how_pi == 2:
+        p_i_arg = grid_pi[1:2][0:1].reshape(())  # 0-d VIEW into the grid
     try:
         with warnings.catch_warnings():
             warnings.simplefilter("ignore")
-            obj = cls(tab, p_i)
+            obj = cls(tab, p_i_arg)
+        if how_pi in (1, 2):
+            m_i_then = float(obj.m_i)
+            if how_pi == 1:
+                p_i_arg += 1500.0
+            else:
+                grid_pi *= 0.0689
+            ck.count("initial_pressures_given_as_arrays_the_caller_keeps_using")
+            if float(obj.m_i) != m_i_then:
+                ck.violation("wrapper-unchanged-by-its-users", {"what": "m_i after the caller updated, in place, the array it had passed as initial pressure", "m_i_when_built": m_i_then, "m_i_now": float(obj.m_i), "p_i": p_i}, desc)
+                return True, None
     except Exception as e:  # noqa: BLE001
         drain("__init__")
         ck.count(f"constructor_raised.{type(e).__name__}")
